@@ -5,7 +5,7 @@ package http2
 
 //@ -- The captured fingerprint data is written only by processFrame (module-wide scan). Every other function,
 //@ -- in particular the process* handlers it calls, therefore leaves it unchanged.
-//@ writers [C03,C06,C07:capture-sites] metadata.HTTP2FingerprintingFrames fields Settings,WindowUpdateIncrement,Priorities,Headers only (*serverConn).processFrame
+//@ writers [C03,C06,C07:capture-sites] metadata.HTTP2FingerprintingFrames fields * only (*serverConn).processFrame
 
 //@ func goroutineLock.check
 //@   trusted
